@@ -455,7 +455,20 @@ def long_family(ctx):
                 for dtype in ("int16", "int32", "int64", "float32"):
                     check_rolling(vals, valid[None, :], w, nd, dtype, ctx, sub)
                     ctx.count(sub, evaluations=1, nontrivial=int(gap_name != "none"))
-    ctx.sample(sub, {"n": n, "gaps": ["none", "every7", "outage", "lead_trail", "sparse"], "windows": [1, 2, 3, 9, 36, 60, 61, n]})
+    # long records on a high level: the total over the record passes 2^24 (float32 cannot hold a running total of
+    # the whole record exactly) while every window sum is a small exact integer
+    n2 = 1000
+    t2 = np.arange(n2)
+    for level, dts in ((26000, ("int16", "int32", "int64", "float32")), (100000, ("int32", "int64", "float32"))):
+        base2 = (level + (t2 * 37) % 101).astype(np.int64)
+        for gap_name, valid in (("none", np.ones(n2, bool)), ("every7", t2 % 7 != 3), ("outage", ~((t2 >= 700) & (t2 < 760)))):
+            vals = np.where(valid, base2, -9999)[None, :]
+            for w in (1, 2, 5, 36):
+                for dtype in dts:
+                    check_rolling(vals, valid[None, :], w, -9999, dtype, ctx, sub)
+                    ctx.count(sub, evaluations=1, nontrivial=1)
+    ctx.sample(sub, {"n": n, "gaps": ["none", "every7", "outage", "lead_trail", "sparse"], "windows": [1, 2, 3, 9, 36, 60, 61, n],
+                     "high_level_records": {"n": n2, "levels": [26000, 100000], "windows": [1, 2, 5, 36]}})
 
 
 # --------------------------------------------------------------------- entry points
